@@ -292,13 +292,23 @@ func TestC16_Double(t *testing.T) { rapid.Check(t, propDouble) }
 // may alias an entry anywhere in the list, including its tail; some entries
 // are repeated pointers, identity points or zero scalars.
 func propLong(t *rapid.T) {
-	longCase(t, "long", gen.Sampled([]int{16, 17, 31, 32, 33, 63, 64, 65, 127, 128, 129, 200, 255, 256, 257, 258, 300, 511, 512, 513}).Draw(t, "len"))
+	lens := []int{16, 17, 31, 32, 33, 63, 64, 65, 127, 128, 129, 200, 255, 256, 257, 258, 300, 511, 512, 513}
+	for _, v := range gen.SourceIntLiterals(9, 513) { // and next to the library's own integer constants
+		lens = append(lens, v-1, v, v+1)
+	}
+	longCase(t, "long", gen.Sampled(lens).Draw(t, "len"))
 }
 
 // propVeryLong: one length on, next to and inside every power-of-two tier up
 // to 2^14 terms -- where a bucket method would pick its window width from the
 // list length, every tier is a different code path, and each is visited.
 func propVeryLong(t *rapid.T) {
+	// ... and lengths next to every integer constant the library's own sources contain (a threshold at which
+	// the code batches, caps or switches algorithm is written down there as a number)
+	if lits := gen.SourceIntLiterals(514, 70000); len(lits) > 0 && rapid.IntRange(0, 3).Draw(t, "source-constant") == 0 {
+		longCase(t, "very-long", gen.Sampled(lits).Draw(t, "lit")+rapid.IntRange(-1, 1).Draw(t, "lit-off"))
+		return
+	}
 	k := uint(rapid.IntRange(9, 13).Draw(t, "tier"))
 	n := 1 << k
 	switch rapid.IntRange(0, 3).Draw(t, "where") {
